@@ -8,10 +8,11 @@ package main
 
 // ---- C16: time range and step flags
 
+// max(1s, floor((end-start)/250) seconds), in integer arithmetic on the whole seconds of the range.
 //@ func defaultStep
 //@   pure
-//@   realfloat
 //@   ensures[at-least-1s] ret0 >= time.Second
+//@   ensures[a-250th-of-the-range-in-whole-seconds] ret0 == time.Duration(ite(int64(end.Sub(start)/time.Second)/250 < 1, 1, int64(end.Sub(start)/time.Second)/250)) * time.Second
 
 //@ func parseDuration
 //@   ensures[positive] ret1 == nil ==> ret0 > 0
@@ -41,6 +42,7 @@ package main
 //@   ensures[start-result]      err == nil ==> ps_called && start == ps_r0 && ps_a0 == startParam.Or("")
 //@   ensures[start-default-6h]  ps_called && !sinceParam.Set ==> ps_a1 == ite(pe_r0.After(now), now, pe_r0).Add(-6*time.Hour)
 //@   ensures[errors-surface]    (pe_called && pe_r1 != nil) || (ps_called && ps_r1 != nil) ==> err != nil
+//@   ensures[a-given-flag-has-a-value] (endParam.Set && endParam.Value == "") || (startParam.Set && startParam.Value == "") ==> err != nil
 
 // ---- C15: rendering
 
